@@ -29,8 +29,8 @@ type LcS = <adlt::lifecycle::LcsRType as HasherOf>::S;
 type LcsW = evmap::WriteHandle<LifecycleId, LifecycleItem, (), LcS>;
 type LcsR = adlt::lifecycle::LcsRType;
 
-const RECV_TIMEOUT: Duration = Duration::from_secs(90);
-const JOIN_BOUND: Duration = Duration::from_secs(45);
+const RECV_TIMEOUT: Duration = Duration::from_secs(300); // hang detection only
+const JOIN_BOUND: Duration = Duration::from_secs(120); // "every stage terminates": generous, the machine may be loaded
 
 /// harness-side plugin: drops messages of context "SKIP" (the stage function plugins_process_msgs is the code under test)
 struct DropSkip {
@@ -405,13 +405,16 @@ fn do_case(t: &mut Trace, st: &mut Stats, case: u64, spec: &PipeSpec, msgs: &[Dl
         pacing.drop_at = Some((da * nref).div_ceil(nout.max(1)).min(nref));
     }
     let pacing = &pacing;
+    let r_recv = r.recv.clone();
     let refv: Vec<Value> = r.recv.iter().map(|(i, l, h)| json!({"idx":i,"lc":l,"hash":h})).collect();
     t.ev(json!({"ev":"reset","case":case,"hdr":{"sorted":spec.sort,"stages":spec.stages(),"ref":refv,"reftable":r.table.unwrap(),
         "caps":caps,"drop_at":pacing.drop_at.map(|x| x as i64).unwrap_or(-1),"n_in":msgs.len(),
         "spec":format!("{:?}", spec),"pacing":format!("{:?}", pacing),"info":info}}));
     let o = run_pipeline(spec, msgs, caps, pacing);
+    // `pos` is only a search hint for TLC (where in the reference a message with this tag sits; 0 = nowhere); TLC verifies it
+    let pos_of: std::collections::HashMap<i64, usize> = r_recv.iter().enumerate().map(|(j, e)| (e.0, j + 1)).collect();
     for (i, l, h) in &o.recv {
-        t.ev(json!({"ev":"recv","idx":i,"lc":l,"hash":h}));
+        t.ev(json!({"ev":"recv","idx":i,"lc":l,"hash":h,"pos":pos_of.get(i).copied().unwrap_or(0)}));
     }
     match o.ended {
         Ended::Eos => t.ev(json!({"ev":"eos"})),
